@@ -386,14 +386,27 @@ def run(ctx: Ctx, rs: RuleSet, tier: str):
            ctx.loc(sv, sv.node))
   tv = ctx.func(f'{CFG}.tagged_value_fn')
   g = ctx.cfg(tv)
-  ok = False
-  for n in g.nodes():
-    if g.kind[n] == 'if' and unparse(g.stmt[n].test) == f'{tv.params[0]} is NO_VALUE':
-      r = g.reach([x for x, lab in g.succ[n] if lab == 'true'],
-                  labels=cfg_lib.NO_EXC)
-      rets = [g.stmt[x] for x in g.nodes() if isinstance(g.stmt[x], ast.Return)]
-      ok = g.exit not in r and g.raise_exit in r and all(
-          unparse(x.value) == tv.params[0] for x in rets) and bool(rets)
+  from fdlstatic import dispatch
+
+  def unset(v):
+    def ev(t):
+      if isinstance(t, ast.Compare) and len(t.ops) == 1 and {
+          unparse(t.left), unparse(t.comparators[0]).split('.')[-1]} == {
+              tv.params[0], 'NO_VALUE'}:
+        if isinstance(t.ops[0], ast.Is):
+          return v
+        if isinstance(t.ops[0], ast.IsNot):
+          return not v
+      return None
+    return ev
+
+  r_unset = dispatch.reach_atoms(g, unset(True))
+  set_vals = [unparse(x) for x in dispatch.returned_under(g, unset(False), tv)]
+  r_set = dispatch.reach_atoms(g, unset(False))
+  # unset: never returns normally; set: returns the value and cannot raise
+  ok = (g.exit not in r_unset and g.raise_exit in r_unset and
+        set_vals == [tv.params[0]] and not any(
+            isinstance(g.stmt[n], ast.Raise) for n in r_set))
   rs.check(ok, rule, tv.qualname,
            'raises when the value is NO_VALUE, otherwise returns it',
            ctx.loc(tv, tv.node))
